@@ -78,7 +78,14 @@ def run(c):
                 q.append(op["salt"])
             elif op["op"] == "recv":
                 op["salt"] = q.pop(0)
-        rc.append({"id": i, "kind": "raw", "ops": ops})
+        case = {"id": i, "kind": "raw", "ops": ops}
+        if i % 6 == 5:
+            # the receiver asks for credentials only when it is about to receive: messages sent before that carry the ones the sender specified
+            case["late_passcred"] = True
+            for op in ops:
+                if op["op"] == "send":
+                    op["cred"] = True
+        rc.append(case)
     ro = c.run_harness(exe, rc, env=env, timeout=900)
     items = []
     for x, o in zip(rc, ro):
